@@ -72,6 +72,8 @@ var vfC10Rules = map[string]vfC10RuleDef{
 	"a2": {"addr", "127.0.0.2"}, "a6": {"addr", "::1"},
 	"n31": {"subnet", "127.0.0.2/31"}, "n32": {"subnet", "127.0.0.3/32"}, "n8": {"subnet", "127.0.0.0/8"},
 	"n128": {"subnet", "::1/128"},
+	// the subnets n31 / n8 given with host bits set (as net.Interface.Addrs returns them, for instance)
+	"n31h": {"subnet", "127.0.0.3/31"}, "n8h": {"subnet", "127.0.0.2/8"},
 }
 
 var vfC10PeerNames = []string{"p2", "p3", "p6", "px", "pa"} // px: never a rule; pa: the gated host itself
@@ -110,6 +112,7 @@ func vfC10Ids() map[string]vfC10Ident {
 
 // the forms in which one remote IP can reach the gater.  class: ip4 | ip6 | mapped | noip
 type vfC10Form struct {
+	ipIdx int    // index of ip in vfC10IPNames (0 = no IP component)
 	ip    string // abstract IP name, "" for forms without an IP component
 	class string
 	text  string
@@ -125,7 +128,13 @@ func vfC10Forms() []vfC10Form {
 		if err != nil {
 			panic(fmt.Sprintf("form %q: %v", text, err))
 		}
-		out = append(out, vfC10Form{ip, class, text, a})
+		idx := 0
+		for i, n := range vfC10IPNames() {
+			if n == ip {
+				idx = i
+			}
+		}
+		out = append(out, vfC10Form{idx, ip, class, text, a})
 	}
 	names := make([]string, 0, len(vfC10IPs))
 	for n := range vfC10IPs {
@@ -164,6 +173,16 @@ func vfC10Forms() []vfC10Form {
 		add("", "noip", t)
 	}
 	return out
+}
+
+// vfC10IPNames: "" first, then the abstract IP names sorted
+func vfC10IPNames() []string {
+	names := []string{}
+	for n := range vfC10IPs {
+		names = append(names, n)
+	}
+	sort.Strings(names)
+	return append([]string{""}, names...)
 }
 
 func vfC10Expand(ip net.IP) string {
@@ -252,9 +271,10 @@ func (d *vfC10DS) Close() error                                     { return nil
 // model state / configuration
 
 type vfC10State struct {
-	Mem  []string
-	Disk []string
-	Up   bool
+	Mem   []string
+	Disk  []string
+	Shown []string // what ListBlocked* returns (names by value)
+	Up    bool
 	Call [3]string // kind, rule, pc
 	Att  struct {
 		Dir, Peer, IP, Tpt string
@@ -265,11 +285,11 @@ type vfC10State struct {
 func vfC10ParseState(raw json.RawMessage) (vfC10State, error) {
 	var st vfC10State
 	var top []json.RawMessage
-	if err := json.Unmarshal(raw, &top); err != nil || len(top) != 5 {
+	if err := json.Unmarshal(raw, &top); err != nil || len(top) != 6 {
 		return st, fmt.Errorf("state layout: %v %s", err, string(raw))
 	}
 	var att []any
-	for i, dst := range []any{&st.Mem, &st.Disk, &st.Up, &st.Call, &att} {
+	for i, dst := range []any{&st.Mem, &st.Disk, &st.Up, &st.Call, &att, &st.Shown} {
 		if err := json.Unmarshal(top[i], dst); err != nil {
 			return st, fmt.Errorf("state field %d: %v in %s", i, err, string(raw))
 		}
@@ -286,11 +306,13 @@ func vfC10ParseState(raw json.RawMessage) (vfC10State, error) {
 	}
 	sort.Strings(st.Mem)
 	sort.Strings(st.Disk)
+	sort.Strings(st.Shown)
 	return st, nil
 }
 
 type vfC10Conf struct {
 	Match     map[string][]string `json:"match"`
+	Canon     map[string]string   `json:"canon"`
 	Peers     []string            `json:"peers"`
 	Addrs     []string            `json:"addrs"`
 	Subnets   []string            `json:"subnets"`
@@ -389,7 +411,10 @@ type vfC10Sys struct {
 	// eighth of the address forms otherwise
 	lastListed string
 	forceFull  bool
-	matchMemo  map[string][]string
+	matchMemo  map[[2]string][]string
+	diskKeys   map[string]string
+	ipNames    []string
+	seenSit    map[string]int // situations (listed rules, call in flight, reopened) already evaluated completely
 }
 
 type vfC10Att struct {
@@ -412,7 +437,7 @@ func (r *vfC10Rand) next() uint64 {
 func (r *vfC10Rand) intn(n int) int { return int(r.next() % uint64(n)) }
 
 func vfC10NewSys(conf *vfC10Conf, res *vfh.Result, forms []vfC10Form, seed uint64) (*vfC10Sys, error) {
-	s := &vfC10Sys{conf: conf, res: res, forms: forms, rnd: &vfC10Rand{s: seed}, must: map[string]string{}}
+	s := &vfC10Sys{conf: conf, res: res, forms: forms, rnd: &vfC10Rand{s: seed}, must: map[string]string{}, ipNames: vfC10IPNames()}
 	s.raw = dssync.MutexWrap(datastore.NewMapDatastore())
 	s.ds = &vfC10DS{inner: s.raw}
 	for _, r := range conf.rules() {
@@ -466,12 +491,23 @@ func (s *vfC10Sys) doCall(g *conngater.BasicConnectionGater, kind, rule string, 
 		}
 		return form, func() error { return g.UnblockAddr(ip) }
 	default:
-		_, n, err := net.ParseCIDR(d.val)
+		hip, n, err := net.ParseCIDR(d.val)
 		if err != nil {
 			panic(err)
 		}
 		form := "cidr"
-		if n.IP.To4() != nil {
+		if !hip.Equal(n.IP) {
+			// a spelling with host bits set: keep them (the caller's value is the rule's key)
+			switch variant % 3 {
+			case 0:
+				n, form = &net.IPNet{IP: hip.To4(), Mask: n.Mask}, "hostbits"
+			case 1:
+				n, form = &net.IPNet{IP: hip.To16(), Mask: n.Mask}, "hostbits-ip16-mask4"
+			default:
+				ones, _ := n.Mask.Size()
+				n, form = &net.IPNet{IP: hip.To16(), Mask: net.CIDRMask(ones+96, 128)}, "hostbits-mapped"
+			}
+		} else if n.IP.To4() != nil {
 			ones, _ := n.Mask.Size()
 			switch variant % 3 {
 			case 1: // the same subnet written as an IPv4-mapped IPv6 prefix
@@ -687,9 +723,17 @@ func (s *vfC10Sys) listed(g *conngater.BasicConnectionGater) (map[string]bool, [
 	for _, sn := range g.ListBlockedSubnets() {
 		found := false
 		for _, n := range s.conf.Subnets {
-			_, want, _ := net.ParseCIDR(vfC10Rules[n].val)
-			if sn != nil && vfC10SameSubnet(want, sn) {
+			// by value: the text of the listed subnet (every argument form of one spelling prints alike)
+			if sn != nil && sn.String() == vfC10Rules[n].val {
 				out[n], found = true, true
+			}
+		}
+		if !found && sn != nil {
+			// a listed value that is the canonical spelling of a rule of this instance
+			for _, n := range s.conf.Subnets {
+				if c := s.conf.Canon[n]; c != n && sn.String() == vfC10Rules[c].val {
+					out[c], found = true, true
+				}
 			}
 		}
 		if !found {
@@ -697,25 +741,6 @@ func (s *vfC10Sys) listed(g *conngater.BasicConnectionGater) (map[string]bool, [
 		}
 	}
 	return out, unknown
-}
-
-func vfC10SameSubnet(a, b *net.IPNet) bool {
-	ao, ab := a.Mask.Size()
-	bo, bb := b.Mask.Size()
-	if ab == 0 || bb == 0 {
-		return false
-	}
-	// compare as prefixes of the 128-bit space (an IPv4 prefix /n is ::ffff:0:0/96+n)
-	norm := func(n *net.IPNet, ones, bits int) (net.IP, int) {
-		ip := n.IP.Mask(n.Mask)
-		if bits == 32 || ip.To4() != nil && len(ip) == 4 {
-			return ip.To16(), ones + 96
-		}
-		return ip.To16(), ones
-	}
-	ai, al := norm(a, ao, ab)
-	bi, bl := norm(b, bo, bb)
-	return al == bl && ai.Equal(bi)
 }
 
 func (s *vfC10Sys) diskNames() ([]string, []string, error) {
@@ -727,19 +752,22 @@ func (s *vfC10Sys) diskNames() ([]string, []string, error) {
 	if err != nil {
 		return nil, nil, err
 	}
-	ids := vfC10Ids()
-	want := map[string]string{}
-	for _, n := range s.conf.rules() {
-		d := vfC10Rules[n]
-		switch d.kind {
-		case "peer":
-			want["/libp2p/net/conngater/peer/"+ids[n].id.String()] = n
-		case "addr":
-			want["/libp2p/net/conngater/addr/"+d.val] = n
-		default:
-			want["/libp2p/net/conngater/subnet/"+d.val] = n
+	if s.diskKeys == nil {
+		ids := vfC10Ids()
+		s.diskKeys = map[string]string{}
+		for _, n := range s.conf.rules() {
+			d := vfC10Rules[n]
+			switch d.kind {
+			case "peer":
+				s.diskKeys["/libp2p/net/conngater/peer/"+ids[n].id.String()] = n
+			case "addr":
+				s.diskKeys["/libp2p/net/conngater/addr/"+d.val] = n
+			default:
+				s.diskKeys["/libp2p/net/conngater/subnet/"+d.val] = n
+			}
 		}
 	}
+	want := s.diskKeys
 	var names, unknown []string
 	for _, e := range es {
 		if n, ok := want[e.Key]; ok {
@@ -868,20 +896,48 @@ func (s *vfC10Sys) checkUp(g *conngater.BasicConnectionGater, st vfC10State) {
 	if len(unknown) > 0 {
 		s.mismatch("L2:unknown-rule-listed", fmt.Sprintf("ListBlocked* returned rules nobody blocked: %v", unknown), nil, unknown)
 	}
+	names := map[string]bool{}
 	for _, r := range s.conf.rules() {
+		names[r] = true
+		if c := s.conf.Canon[r]; c != "" {
+			names[c] = true
+		}
+	}
+	for r := range names {
+		canon := r
+		if c := s.conf.Canon[r]; c != "" {
+			canon = c
+		}
 		switch {
-		case s.must[r] == "in" && !listed[r]:
+		case s.must[r] == "in" && !listed[r] && !listed[canon]:
 			s.mismatch("acked-block-not-listed:"+vfC10Kind(r), fmt.Sprintf("Block(%s=%s) returned success, no later call on it, but ListBlocked* does not contain it%s", r, vfC10Rules[r].val, after), "listed", "absent")
 		case s.must[r] == "out" && listed[r]:
-			s.mismatch("acked-unblock-still-listed:"+vfC10Kind(r), fmt.Sprintf("Unblock(%s=%s) returned success (or never blocked) but ListBlocked* contains it%s", r, vfC10Rules[r].val, after), "absent", "listed")
-		case listed[r] != vfC10In(st.Mem, r):
-			s.mismatch("L2:mem-differs", fmt.Sprintf("rule %s listed=%v, model mem %v", r, listed[r], st.Mem), st.Mem, listed)
+			// which history class: is another spelling of the same subnet in force (written by a call that was never undone)?
+			cls := "acked-unblock-still-listed:" + vfC10Kind(r)
+			for _, y := range s.conf.rules() {
+				if y != r && s.conf.Canon[y] == r && (s.must[y] == "in" || s.must[y] == "free") {
+					cls += ":listed-value-of-hostbits-spelling"
+					break
+				}
+			}
+			s.mismatch(cls, fmt.Sprintf("Unblock(%s=%s) returned success, no later call on it, but ListBlocked* still contains that value%s", r, vfC10Rules[r].val, after), "absent", "listed")
+		case listed[r] != vfC10In(st.Shown, r):
+			s.mismatch("L2:mem-differs", fmt.Sprintf("value %s listed=%v, model lists %v (mem %v)", r, listed[r], st.Shown, st.Mem), st.Shown, listed)
 		}
 	}
 	// every gate function once per argument
 	lk := fmt.Sprint(listed)
 	full := s.forceFull || lk != s.lastListed
 	s.lastListed, s.forceFull = lk, false
+	if full && s.seenSit != nil {
+		// the same situation (listed rules, call in flight, fresh or reopened process) is met thousands of
+		// times along covering walks: evaluate the complete matrix the first two times, a rotating slice after
+		sit := lk + "|" + st.Call[0] + st.Call[1] + st.Call[2] + fmt.Sprint(s.reopens > 0, s.must)
+		if s.seenSit[sit] >= 2 {
+			full = false
+		}
+		s.seenSit[sit]++
+	}
 	ids := vfC10Ids()
 	peers := []string{"p2", "p3", "p6", "px"}
 	peerDial, secIn := map[string]bool{}, map[string]bool{}
@@ -912,11 +968,11 @@ func (s *vfC10Sys) checkUp(g *conngater.BasicConnectionGater, st vfC10State) {
 		free bool
 		out  bool // some matching rule was unblocked with success
 	}
-	obls := map[string]obl{}
-	oblOf := func(p, ip string) obl {
-		k := p + "|" + ip
-		if o, ok := obls[k]; ok {
-			return o
+	var obls [4][16]obl
+	var have [4][16]bool
+	oblOf := func(pi int, p string, ipIdx int, ip string) obl {
+		if have[pi][ipIdx] {
+			return obls[pi][ipIdx]
 		}
 		var o obl
 		for _, r := range s.matching(p, ip) {
@@ -931,12 +987,12 @@ func (s *vfC10Sys) checkUp(g *conngater.BasicConnectionGater, st vfC10State) {
 				o.out = true
 			}
 		}
-		obls[k] = o
+		obls[pi][ipIdx], have[pi][ipIdx] = o, true
 		return o
 	}
-	blockedIP := map[string]bool{}
-	for ip := range vfC10IPs {
-		blockedIP[ip] = s.modelIPBlocked(st.Mem, ip)
+	var blockedIP [16]bool
+	for i, ip := range s.ipNames {
+		blockedIP[i] = s.modelIPBlocked(st.Mem, ip)
 	}
 	n := 0
 	for i, f := range s.forms {
@@ -947,7 +1003,7 @@ func (s *vfC10Sys) checkUp(g *conngater.BasicConnectionGater, st vfC10State) {
 		pid := ids[peers[(i+s.step+1)%len(peers)]].id // the peer argument is not looked at by the model's gate
 		addrDial := g.InterceptAddrDial(pid, f.addr)
 		accept := g.InterceptAccept(vfC10Stub{vfC10Local, f.addr})
-		want := !blockedIP[f.ip]
+		want := !blockedIP[f.ipIdx]
 		if addrDial != want {
 			s.mismatch("L2:gate:addrdial:"+f.class, fmt.Sprintf("InterceptAddrDial(%s)=%v, model mem %v", f.text, addrDial, st.Mem), want, addrDial)
 		}
@@ -955,8 +1011,8 @@ func (s *vfC10Sys) checkUp(g *conngater.BasicConnectionGater, st vfC10State) {
 			s.mismatch("L2:gate:accept:"+f.class, fmt.Sprintf("InterceptAccept(remote %s)=%v, model mem %v", f.text, accept, st.Mem), want, accept)
 		}
 		// the statement's clauses per (peer, address form, direction), from the ledger only
-		for _, p := range peers {
-			o := oblOf(p, f.ip)
+		for pi, p := range peers {
+			o := oblOf(pi, p, f.ipIdx, f.ip)
 			for _, dir := range []string{"out", "in"} {
 				var composed bool
 				if dir == "out" {
@@ -1094,12 +1150,12 @@ func (s *vfC10Sys) attStep(op vfh.Op) {
 }
 
 func (s *vfC10Sys) matching(p, ip string) []string {
-	k := p + "|" + ip
+	k := [2]string{p, ip}
 	if m, ok := s.matchMemo[k]; ok {
 		return m
 	}
 	if s.matchMemo == nil {
-		s.matchMemo = map[string][]string{}
+		s.matchMemo = map[[2]string][]string{}
 	}
 	m := s.conf.matching(p, ip)
 	s.matchMemo[k] = m
@@ -1190,12 +1246,14 @@ func TestVerifC10Replay(t *testing.T) {
 		if err != nil {
 			t.Fatal(err)
 		}
+		seenSit := map[string]int{}
 		for _, w := range walks {
 			sys, err := vfC10NewSys(conf, res, forms, uint64(vfh.Seed())*1000003+uint64(w.Walk)*7919+uint64(len(name)))
 			if err != nil {
 				t.Fatal(err)
 			}
 			sys.inst, sys.walk, sys.step = name, w.Walk, -1
+			sys.seenSit = seenSit
 			st0, err := vfC10ParseState(w.Init)
 			if err != nil {
 				t.Fatal(err)
@@ -1217,7 +1275,8 @@ func TestVerifC10Replay(t *testing.T) {
 				if err := sys.check(st); err != nil {
 					t.Fatalf("%s walk %d step %d %v: %v", name, w.Walk, i, stp.Op, err)
 				}
-				res.Case(name + "|" + prev + "|" + vfh.Canon(stp.Op))
+				hk := sha256.Sum256([]byte(name + "|" + prev + "|" + vfh.Canon(stp.Op)))
+				res.Case(string(hk[:12]))
 				prev = string(stp.State)
 				k := stp.Op.Name()
 				switch k {
